@@ -394,7 +394,7 @@ Section Sym.
     destruct (get h n) as [[ch m|dt k i m|t m]|] eqn:Hgn.
     - (* a directory *)
       destruct todo as [|c2 todo]; cbn [is_nil].
-      + intros _ _ _. cbn. repeat split; eauto.
+      + intros _ _ _. cbn. repeat split; eauto; unfold get in *; congruence.
       + assert (Hpn : kperm h n 1 u = check_permission m OpenLookup u) by (apply (kperm_dir _ _ _ _ u Hgn)).
         assert (Hnd : node_is_dir h n = true) by (unfold node_is_dir; rewrite Hgn; reflexivity).
         destruct (check_permission m OpenLookup u) eqn:Hcp.
@@ -408,7 +408,7 @@ Section Sym.
           split; [|intros _ [=]]. right. split; [auto|reflexivity].
     - (* a file *)
       intros _ _ _. destruct todo as [|c2 todo]; cbn [is_nil].
-      + cbn. repeat split; eauto.
+      + cbn. repeat split; eauto; unfold get in *; congruence.
       + cbn. split; [|intros _ [=]]. right. split; [auto|reflexivity].
     - (* a symbolic link *)
       destruct (Hlc n t m Hgn) as (x & Ht).
@@ -419,7 +419,7 @@ Section Sym.
       destruct (is_nil todo && slmode_eqb slm SlLstat) eqn:Hnofollow.
       { (* final component, lstat mode: the link itself *)
         apply andb_true_iff in Hnofollow as (Hl1 & Hl2). rewrite Hl1, Hl2. cbn [negb orb]. intros _ _ _.
-        destruct todo; [|discriminate]. cbn. repeat split; eauto. }
+        destruct todo; [|discriminate]. cbn. repeat split; eauto; unfold get in *; congruence. }
       assert (Hfol : negb (is_nil todo) || negb (slmode_eqb slm SlLstat) || false = true).
       { destruct (is_nil todo), (slmode_eqb slm SlLstat); cbn in *; congruence. }
       rewrite Hfol.
@@ -449,7 +449,8 @@ Section Sym.
           2:{ apply resumes_longer in Hres. cbn [length] in Hres. lia. }
           destruct fi as [|fi]; [cbn [search_loop sr_err]; congruence|]. intros _.
           rewrite (search_loop_end h v Hos fi slm root root pi2 (S slcount) saved' [] Hok' Hb2).
-          cbn. split; [reflexivity|]. split; [reflexivity|]. split; [eauto|]. intros [=].
+          cbn [walk_rel sr_err sr_child sr_parent]. split; [reflexivity|]. split; [reflexivity|].
+          split; [apply node_is_dir_valid; exact Hrd|]. split; [eauto|]. intros [=].
         * assert (Hmd : is_nil todo && ktrailing (abs_path lc) = false).
           { destruct todo as [|c2 todo]; [|reflexivity]. cbn [is_nil andb]. rewrite app_nil_r in Ecs.
             apply ktrailing_abs_path; [apply Forall_comp_ok_of; exact Hlcg|rewrite <- Ecs; discriminate]. }
@@ -482,7 +483,9 @@ Section Sym.
           destruct (search_rewalk_full h v Hos cs' root p [] cs' fi slm root pi2 (S slcount) saved' eq_refl Hok' Hb2 Hp1)
             as (R1 & R2 & R3).
           cbn. change (S (length cs') + fi) with (S (length cs' + fi)).
-          split; [exact R1|]. split; [exact R2|]. split; [exact R3|]. intros [=].
+          split; [exact R1|]. split; [exact R2|].
+          split; [apply node_is_dir_valid; exact (proj1 (dwalk_end_dir _ _ _ _ _ Hp1 Hrd Hrp))|].
+          split; [exact R3|]. intros [=].
         * intros Hk1 Hk2 Hnf.
           assert (Hw' : c0 :: w <> []) by discriminate.
           destruct (kwalk_dotdots h u root Hwf Hrd Hrp k done parent (c0 :: w) fk false follow (S slcount) false Hw' Hw)
@@ -512,7 +515,8 @@ Section Sym.
           destruct (search_rewalk_full h v Hos cs' root parent [] cs' fi slm root pi2 (S slcount) saved' eq_refl Hok' Hb2 Hw)
             as (R1 & R2 & R3).
           cbn. change (S (length cs') + fi) with (S (length cs' + fi)).
-          split; [exact R1|]. split; [exact R2|]. split; [exact R3|]. intros [=].
+          split; [exact R1|]. split; [exact R2|]. split; [apply node_is_dir_valid; exact Hd|].
+          split; [exact R3|]. intros [=].
         * intros Hk1 Hk2 Hnf.
           pose proof (kwalk_mono_S fk h u root false follow parent (c2 :: todo) (S slcount) false _ eq_refl Hk1) as Hm.
           rewrite <- Hm in Hk1, Hk2 |- *.
@@ -543,7 +547,8 @@ Proof.
   - destruct fk as [|fk]; [cbn [kwalk]; congruence|]. destruct fi as [|fi]; [cbn [search_loop sr_err]; congruence|].
     intros _ _ _.
     rewrite (search_loop_end h v Hos fi slm (v_root v) (v_root v) _ 0 None [] (Forall_nil _) (pi_new_before [])).
-    rewrite kwalk_S. cbn. split; [reflexivity|]. split; [reflexivity|]. split; [eauto|]. intros [=].
+    rewrite kwalk_S. cbn [walk_rel sr_err sr_child sr_parent]. split; [reflexivity|]. split; [reflexivity|].
+    split; [apply node_is_dir_valid; exact Hrd|]. split; [eauto|]. intros [=].
   - destruct Hmd as [->|Hmd]; [|discriminate]. intros Hk1 Hk2 Hnf.
     apply (sym_bridge_at h v Hos Hwf Hlc Hrd Hrp slm fk fi [] (c :: cs) (v_root v) _ 0 None _); auto.
     + discriminate.
